@@ -17,7 +17,7 @@ CFG = {
                   "the harness tokenises the real bytes with its own tokenizer",
     "technique": "Coq proof (induction over property lists, records, header lines, faces) + vm_compute correspondence check",
     "design_ref": "DESIGN.md §4 C08",
-    "n_quick": 220, "n_thorough": 5000,
+    "n_quick": 220, "n_thorough": 3000,
     "rule": "fixed corner files (3 encodings x 8 layouts: alpha before/after/between colour bytes, element face 0, int "
             "16777217 + non-float32 double, uchar scalar, quad+triangle with per-corner UVs, no vertices) + random "
             "abstract files through an independent Go reference encoder: 3-14 vertex properties from recognised groups "
